@@ -4,7 +4,9 @@ package p01
 
 import (
 	"bytes"
+	"encoding/hex"
 	"fmt"
+	"math"
 	"os"
 	"strings"
 	"sync"
@@ -255,10 +257,62 @@ func buildScenario(r recipe) *scenario {
 
 func (sc *scenario) line() string { return "C01 " + sc.body() }
 
+func hexBlock(b *wire.MsgBlock) string { return hex.EncodeToString(serialize(b)) }
+
+func depTok(bit int, h int32) string {
+	return fmt.Sprintf("%d:%d:-:0:0:%d", bit, int64(math.MaxInt32), h)
+}
+
+// rawBody renders the raw form of the case: network parameters as chaincfg has them, the clock, the scenario
+// expectations, the script oracle bits, the serialized candidate and its serialized ancestor chain.
+func (sc *scenario) rawBody() string {
+	v := sc.v
+	p := chaincfg.RegressionNetParams
+	var sb strings.Builder
+	bh := "-"
+	if sc.bip34 != nil {
+		bh = hex.EncodeToString(sc.bip34[:])
+	}
+	fmt.Fprintf(&sb, "rblk %s %s %d,%d,%d,%d,%d,%d,%x,%x,1,%d,%d,%d,%d,%d,%d,%d,%s", sc.mode, sc.r.String(),
+		v.bip34H, v.bip65H, v.bip66H, b2i(v.bip94), v.maturity, v.subsidyIv, p.PowLimit, p.PowLimitBits,
+		b2i(p.ReduceMinDifficulty), int64(p.MinDiffReductionTime/time.Second), int64(v.bpr)*600, 600,
+		p.RetargetAdjustmentFactor, p.MinerConfirmationWindow, p.RuleChangeActivationThreshold, bh)
+	fmt.Fprintf(&sb, " %s %s %s %d", depTok(0, v.csvH), depTok(1, v.segH), depTok(2, v.tapH), v.now())
+	// the S token is the fifth token of the facts
+	sb.WriteString(" " + strings.Fields(sc.facts)[4] + " ")
+	for ti, t := range sc.cand.Transactions {
+		if ti > 0 {
+			sb.WriteString("/")
+		}
+		if len(t.TxIn) == 0 {
+			sb.WriteString("~")
+		}
+		for ii := range t.TxIn {
+			if ii > 0 {
+				sb.WriteString(",")
+			}
+			n := sc.bs.b.notes[noteKey{t, ii}]
+			fmt.Fprintf(&sb, "%d.%d", b2i(n.failsAlways), n.failsUnder)
+		}
+	}
+	if len(sc.cand.Transactions) == 0 {
+		sb.WriteString("~")
+	}
+	sb.WriteString(" " + hexBlock(sc.cand))
+	sb.WriteString(" " + hexBlock(chaincfg.RegressionNetParams.GenesisBlock))
+	for _, b := range sc.parent.blocks {
+		sb.WriteString(" " + hexBlock(b))
+	}
+	return sb.String()
+}
+
 func (sc *scenario) body() string {
 	op := sc.op
 	if op == "" {
 		op = "blk"
+	}
+	if op == "rblk" {
+		return sc.rawBody()
 	}
 	return fmt.Sprintf("%s %s %s %s", op, sc.mode, sc.r.String(), sc.facts)
 }
@@ -635,7 +689,7 @@ var scMemo = map[string]*scenario{}
 
 // scenarioOf rebuilds (or fetches) the scenario of the case whose tokens start at tok[0] = op.
 func scenarioOf(tok []string) (*scenario, string) {
-	if len(tok) < 3 || (tok[0] != "blk" && tok[0] != "api") {
+	if len(tok) < 3 || (tok[0] != "blk" && tok[0] != "api" && tok[0] != "rblk") {
 		return nil, "bad-op"
 	}
 	r, ok := parseRecipe(tok[2])
@@ -761,6 +815,20 @@ func Lines(seed uint64, thorough bool) []string {
 	return out
 }
 
+// rawWanted: a third of the deliveries go out in raw form (all of them in the thorough tier for small candidates);
+// big candidates stay in fact form (the script walkers of the sibling models recurse per opcode).
+func rawWanted(R *core.Rand, thorough bool, sc *scenario) bool {
+	if sc.cand.SerializeSize() > 40000 || len(sc.cand.Transactions) == 0 {
+		return false
+	}
+	for _, t := range sc.cand.Transactions {
+		if len(t.TxIn) == 0 {
+			return false // not serializable unambiguously
+		}
+	}
+	return thorough && R.Chance(1, 2) || R.Chance(1, 3)
+}
+
 // contextSensitive: mutators about rules that read the candidate's own ancestors (times, heights, utxo set).
 var contextSensitive = map[string]bool{"valid": true, "bip68t": true, "bip68h": true, "locktime": true, "timeold": true,
 	"maturity": true, "maturity2": true, "respend": true, "otherbranch": true, "sidecoin": true, "cbvalue": true,
@@ -875,6 +943,13 @@ func generate(R *core.Rand, thorough bool, emit func(class string, nontrivial bo
 					if sc == nil {
 						continue
 					}
+					if rawWanted(R, thorough, sc) {
+						// the same delivery, the description derived by Lean from the raw bytes
+						sc.op = "rblk"
+						scMemo["rblk:"+r.String()] = sc
+						emit("raw/"+m.name+"/"+r.ctx, m.name != "valid", sc.line())
+						continue
+					}
 					scMemo["blk:"+r.String()] = sc
 					emit(m.name+"/"+r.ctx, m.name != "valid", sc.line())
 					if len(sc.facts) < 4000 && r.ctx != "tmpltip" {
@@ -919,6 +994,10 @@ func (P) Facts() []core.Fact {
 
 // LineOf renders the protocol line of one recipe ("" if the recipe does not apply).
 func LineOf(rs string) string {
+	op := ""
+	if i := strings.Index(rs, ":"); i > 0 {
+		op, rs = rs[:i], rs[i+1:]
+	}
 	r, ok := parseRecipe(rs)
 	if !ok {
 		return ""
@@ -927,5 +1006,6 @@ func LineOf(rs string) string {
 	if sc == nil {
 		return ""
 	}
+	sc.op = op
 	return sc.line()
 }
